@@ -186,6 +186,44 @@ VARIANTS = [
     V( 'forward-close-over-live-view', DEVICE, "for k in list( self.forwards.keys() ): # we'll be mutating the dict...", "for k in self.forwards.keys():", fires=[ 'W-ITERDEL' ] ),
     V( 'resolve-walks-live-symbol', DEVICE, "for s in list( symbol )): # (snapshot: Tags may be added meanwhile)", "for s in symbol ):", fires=[ 'W-ITERDEL' ], why='defect DD' ),
     V( 'resolve-walks-tuple-snapshot', DEVICE, "for s in list( symbol )): # (snapshot: Tags may be added meanwhile)", "for s in tuple( symbol )):", silent=[ 'W-ITERDEL' ] ),
+    V( 'sa-single-mask-only-for-get', DEVICE,
+       ( "assert not ( self.attribute[str(a_id)].mask & Attribute.MASK_GA_SNG ),\\\n \"Attribute not available for %s request\" % ( nam )", "result += self.attribute[str(a_id)].produce()\n data.get_attribute_single = dotdict()" ),
+       ( "pass", "assert not ( self.attribute[str(a_id)].mask & Attribute.MASK_GA_SNG ), 'not available'\n                    result += self.attribute[str(a_id)].produce()\n                    data.get_attribute_single = dotdict()" ),
+       fires=[ 'D-VALIDATE' ], why='round 13 C05/1' ),
+    V( 'sa-single-mask-in-both-arms', DEVICE,
+       ( "assert not ( self.attribute[str(a_id)].mask & Attribute.MASK_GA_SNG ),\\\n \"Attribute not available for %s request\" % ( nam )", "result += self.attribute[str(a_id)].produce()\n data.get_attribute_single = dotdict()", "siz = att.parser.struct_calcsize" ),
+       ( "pass", "assert not ( self.attribute[str(a_id)].mask & Attribute.MASK_GA_SNG ), 'not available'\n                    result += self.attribute[str(a_id)].produce()\n                    data.get_attribute_single = dotdict()",
+         "assert not ( att.mask & Attribute.MASK_GA_SNG ), 'not available'\n                    siz		= att.parser.struct_calcsize" ),
+       silent=[ 'D-VALIDATE' ] ),
+    V( 'sa-single-refused-behind-store', DEVICE, "att[:]	= val", "att[:]	= val\n                if self.attribute[str(a_id)].error:\n                    data.status = self.attribute[str(a_id)].error\n                    raise AssertionError( 'forced' )", fires=[ 'D-VALIDATE' ], why='round 13 C05/2' ),
+    V( 'sa-single-refused-ahead-of-store', DEVICE, "att[:]	= val", "if att.error:\n                        data.status = att.error\n                        raise AssertionError( 'forced' )\n                    att[:]	= val", silent=[ 'D-VALIDATE' ] ),
+    V( 'forward-replybit-behind-handlers', DEVICE,
+       ( "data.service |= 0x80\n data.status = 8 # Service not supported, if anything blows up\n if data.service == self.FWD_CLOS_RPY:", "self.forward_open( data, addr=addr )\n data.status = 0" ),
+       ( "data.status	= 8\n                if data.service == self.FWD_CLOS_REQ:", "self.forward_open( data, addr=addr )\n                data.service   |= 0x80\n                data.status	= 0" ),
+       fires=[ 'P-REPLYBIT' ], why='round 13 C06/1' ),
+    V( 'forward-replybit-right-behind-status', DEVICE,
+       "data.service |= 0x80\n data.status = 8 # Service not supported, if anything blows up",
+       "data.status	= 8\n                data.service   |= 0x80",
+       silent=[ 'P-REPLYBIT' ] ),
+    V( 'lone-standin-service-from-target-path', DEVICE, "req.service	= bytearray( req.input[:1] )[0] & 0x7F\n try:", "req.service	= targetpath.get( 'service', 0 ) & 0x7F\n            try:", fires=[ 'S-STANDIN' ], why='round 13 C06/2' ),
+    V( 'lone-standin-service-by-indexing', DEVICE, "req.service	= bytearray( req.input[:1] )[0] & 0x7F\n try:", "req.service	= bytearray( data.request.input )[0] % 0x80\n            try:", silent=[ 'S-STANDIN' ] ),
+    V( 'member-standin-service-with-reply-bit', DEVICE, "req.service= bytearray( req.input[:1] )[0] & 0x7F\n request.append( req )", "req.service= bytearray( req.input[:1] )[0]\n                request.append( req )", fires=[ 'S-STANDIN' ] ),
+    V( 'redirect-tag-removes-then-stores', DEVICE, "symbol[tag_canonical]	= address\n ids", "for known in list( symbol ):\n        if known.lower() == tag_canonical:\n            del symbol[known]\n    symbol[tag_canonical]	= address\n    ids", fires=[ 'W-ITERDEL' ], why='round 13 C09/2' ),
+    V( 'redirect-tag-stores-then-tidies', DEVICE, "symbol[tag_canonical]	= address\n ids", "symbol[tag_canonical]	= address\n    for known in list( symbol ):\n        if known != tag_canonical and known.lower() == tag_canonical:\n            del symbol[known]\n    ids", silent=[ 'W-ITERDEL' ] ),
+    V( 'string-pad-by-stream-position', 'server/enip/parser.py', "predicate=lambda path=None, data=None, **kwds: (\n 0 == data[path].length % 2 and len( data[path].string ) == data[path].length ),", "predicate=lambda source=None, path=None, data=None, **kwds: (\n                                        0 == source.sent % 2 and len( data[path].string ) == data[path].length ),", fires=[ 'G-PADPOS', 'G-EXACT' ], why='round 13 C10/2' ),
+    V( 'string-pad-by-length-of-text', 'server/enip/parser.py', "predicate=lambda path=None, data=None, **kwds: (\n 0 == data[path].length % 2 and len( data[path].string ) == data[path].length ),", "predicate=lambda source=None, path=None, data=None, **kwds: (\n                                        len( data[path].string ) % 2 == 0 and len( data[path].string ) == data[path].length ),", silent=[ 'G-PADPOS', 'G-EXACT' ] ),
+    V( 'cip-types-validators-made-in-loop', CLIENT, "def parse_operations( tags, fragment=False, int_type=None, **kwds ):", "for _int,_lo,_hi in (( parser.USINT, 0, 2**8-1 ), ( parser.UINT, 0, 2**16-1 )):\n    CIP_TYPES[_int.__name__]	= ( _int.tag_type, _int.struct_calcsize, lambda x: int_validate( x, _lo, _hi ))\n\ndef parse_operations( tags, fragment=False, int_type=None, **kwds ):", fires=[ 'W-LATEBIND' ], why='round 13 C12/1' ),
+    V( 'cip-types-validators-bound-by-default', CLIENT, "def parse_operations( tags, fragment=False, int_type=None, **kwds ):", "for _int,_lo,_hi in (( parser.USINT, 0, 2**8-1 ), ( parser.UINT, 0, 2**16-1 )):\n    CIP_TYPES[_int.__name__]	= ( _int.tag_type, _int.struct_calcsize, lambda x, _lo=_lo, _hi=_hi: int_validate( x, _lo, _hi ))\n\ndef parse_operations( tags, fragment=False, int_type=None, **kwds ):", silent=[ 'W-LATEBIND' ] ),
+    V( 'path-component-second-element-segment', DEVICE, "if not segments or 'element' not in segments[-1]:\n segments.append( {} )\n segments[-1]['element']	= elm", "segments.append( { 'element': elm } )", fires=[ 'T-PATHCOMP' ], why='round 13 C12/2' ),
+    V( 'path-component-element-replaced-otherwise', DEVICE, "if not segments or 'element' not in segments[-1]:\n segments.append( {} )\n segments[-1]['element']	= elm", "if segments and 'element' in segments[-1]:\n            segments[-1]	= { 'element': elm }\n        else:\n            segments.append( { 'element': elm } )", silent=[ 'T-PATHCOMP' ] ),
+    V( 'path-component-range-count-off-by-one', DEVICE, "cnt			= lst + 1 - elm", "cnt			= lst - elm", fires=[ 'T-PATHCOMP' ] ),
+    V( 'close-gateway-digs-into-reason', 'server/enip/get_attribute.py', "self.gateway, exc or \"(unknown)\",", "self.gateway, exc.args[0].splitlines()[0] if exc and exc.args else \"(unknown)\",", fires=[ 'P-GATEWAY' ], why='round 13 C13/1' ),
+    V( 'close-gateway-first-line-of-reason-text', 'server/enip/get_attribute.py', "self.gateway, exc or \"(unknown)\",", "self.gateway, str( exc ).partition( '\\n' )[0] if exc else \"(unknown)\",", silent=[ 'P-GATEWAY' ] ),
+    V( 'port-link-255-refused', DEVICE, "return pl\n\n\ndef parse_route_path", "assert not isinstance( pl[\"link\"], int ) or 0 <= pl[\"link\"] < 0xFF, 'range'\n    return pl\n\n\ndef parse_route_path", fires=[ 'T-PORTLINK' ], why='round 13 C15/2' ),
+    V( 'port-link-octet-range-enforced', DEVICE, "return pl\n\n\ndef parse_route_path", "assert not isinstance( pl[\"link\"], int ) or 0 <= pl[\"link\"] <= 0xFF, 'range'\n    return pl\n\n\ndef parse_route_path", silent=[ 'T-PORTLINK' ] ),
+    V( 'port-zero-accepted', DEVICE, "assert pl[\"port\"] > 0, \\", "assert pl[\"port\"] >= 0, \\", fires=[ 'T-PORTLINK' ] ),
+    V( 'history-search-target-ahead-by-lookahead', 'history/files.py', "target		= self.advance()\n else:", "target		= self.advance() + ( lookahead or 0.0 )\n        else:", fires=[ 'H-FILES' ], why='round 13 C18/1' ),
+    V( 'history-search-target-clock-via-local', 'history/files.py', "target		= self.advance()\n else:", "now		= self.advance()\n            target		= now\n        else:", silent=[ 'H-FILES' ] ),
     V( 'forward-close-over-tuple-snapshot', DEVICE, "for k in list( self.forwards.keys() ): # we'll be mutating the dict...", "for k in tuple( self.forwards ):", silent=[ 'W-ITERDEL' ] ),
     V( 'struct-read-complete-by-short-window', LOGIX, "completed = end == endactual and offremains+max_size >= len( input )", "completed		= end == endactual and len( trimmed ) < max_size", fires=[ 'F-STATUS' ] ),
     V( 'struct-read-complete-by-window-end', LOGIX, "completed = end == endactual and offremains+max_size >= len( input )", "completed		= end == endactual and not input[offremains+max_size:]", silent=[ 'F-STATUS' ] ),
